@@ -139,7 +139,11 @@ func cmdWorker(args []string) int {
 	fs.Parse(args[1:])
 	t0 := time.Now()
 	wo := workerOut{Stats: sim.NewStats(), Shapes: map[string]bool{}, AbortNotes: map[string]int{}}
-	x := uint64(*seed)*0x1000193 + uint64(*idx)*0x9E3779B97F4A7C15 + 12345
+	// independent streams per worker: the start state mixes seed and worker index through SplitMix64 itself
+	// (an offset by a multiple of the SplitMix increment would make the workers replay each other's seeds)
+	s0 := uint64(*seed)
+	s1 := (uint64(*idx) + 1) * 0xD6E8FEB86659FD93
+	x := sim.SplitMix64(&s0) ^ sim.SplitMix64(&s1)
 	replayDir := filepath.Join(verifDir, "replays")
 	seenSig := map[string]bool{}
 	kfw := loadKnown()
@@ -410,13 +414,15 @@ func cmdCheck(args []string) int {
 	}
 	writeEvidence(prop, *tier, *seed, &merged, wall, len(unknown), len(knownHit))
 	os.RemoveAll(work)
-	seenSig := map[string]bool{}
+	keptReplay := map[string]string{}
 	for _, v := range unknown {
-		if seenSig[v.Signature] {
-			os.Remove(v.Replay) // one replay file per signature is enough
+		if first, dup := keptReplay[v.Signature]; dup {
+			if v.Replay != first {
+				os.Remove(v.Replay) // one replay file per signature is enough
+			}
 			continue
 		}
-		seenSig[v.Signature] = true
+		keptReplay[v.Signature] = v.Replay
 		fmt.Printf("violation: %s: %s\n", v.Signature, v.Message)
 		fmt.Printf("VIOLATION property=%s replay=%s\n", prop, v.Replay)
 	}
